@@ -4342,10 +4342,10 @@ def check_onepoint(goal, ctx):
             for v, t in one_val_var.items():
                 found = False
                 for i, conj in enumerate(conjs):
-                    if conj.is_equals() and conj.lhs == v:
+                    if conj.is_equals() and conj.lhs == v and conj.rhs == t:
                         found = True
                         break
-                    if conj.is_equals() and conj.rhs == v:
+                    if conj.is_equals() and conj.rhs == v and conj.lhs == t:
                         found = True
                         break
                 if not found:
